@@ -70,24 +70,24 @@ reg("C07", misc.check_C07, "proof",
     "Static: Ord::cmp summarised over two converted ranks, shown to use the values only in comparisons with constants and "
     "with each other, then decided on three representatives per order cell: spec table (valid reversed, invalid lowest), "
     "antisymmetry, Equal iff equal over all representative pairs, transitivity over all representative triples; "
-    "partial_cmp = Some(cmp) by node identity; no operator overrides; derive facts; enum declaration order vs strength order.",
+    "partial_cmp = Some(cmp) by node identity; overridden operators / max / min / hand-written equality tabulated on the same representatives (their constants cut cells too); From<u16> field wiring and shadowing; derive facts (an impl counts as derived only when it comes from a derive expansion); enum declaration order vs strength order.",
     "decision table of the comparison over order cells + impl/derive facts", "5-C07")
 reg("C12", misc.check_C12, "other",
     "Static: both symbol tables as cell tables over all 1114112 scalar values; the token parser's summary shown to read "
     "only character positions 0 and 1, then folded over every pair of leading characters of a symbol/separator/multibyte "
-    "alphabet; every panic site on the parse path discharged over the same alphabet; seven hand parsers folded over token "
-    "layouts (missing, exact, surplus tokens; mixed whitespace); bit-set parser by bounded unrolling plus loop-shape rule.",
+    "alphabet extended by every character the code compares a token character with; every panic site on the parse path discharged over the same alphabet; seven hand parsers (parsed cards shown to be pure payload) folded over token "
+    "layouts (missing, exact, surplus tokens; mixed whitespace); bit-set parser unrolled over 58 tokens (more than there are cards) plus loop-shape rule.",
     "cell tables over char + dataflow (positions read) + fold over abstract token layouts", "5-C12",
     ["str::chars yields the scalar values in order and split_whitespace the whitespace-separated tokens in order; neither panics"])
 reg("C15", misc.check_C15, "other",
     "Static: container conversions are OR-trees over exactly their slots (provenance); fold_in/has/is_valid as per-bit "
-    "formulas; count by structure; peel decided by 53 abstract cases with partially known bits (first member is deck card k, "
+    "formulas (has: exact formula for every bit position); count by structure; text parser unrolled over 58 tokens; peel decided by 53 abstract cases with partially known bits (first member is deck card k, "
     "lower bits and bits 52-63 symbolic): returns that card's bit and clears exactly it, blank and unchanged otherwise.",
     "bit-vector abstraction with partially known bits + provenance", "5-C15", ["count_ones is the population count"])
 reg("C16", misc.check_C16, "other",
     "Static: TryFrom<u64> for Two summarised from MIR (two sequenced peels, inverse table, validity gate) and folded over "
     "all 2016 two-bit values (result in deck order, from_two gives the set back, InvalidBinaryFormat when a bit is not a "
-    "card) and over structured sets of other population counts with and without non-card bits; peel contract as in C15.",
+    "card); for each of the 65 population counts other than 2, with the count fixed, the result is shown to be the constant error of that count; peel contract as in C15.",
     "MIR summary folded over the property's explicit finite space + abstract peel cases", "5-C16")
 reg("C17", misc.check_C17, "other",
     "Static in the sense of DESIGN section 1: the closed-form summaries of chen_formula and its helpers, extracted from MIR "
@@ -115,18 +115,18 @@ reg("C13", rank.check_C13, "other",
 reg("C02", rank.check_C02, "other",
     "Static: 5-of-6 / 5-of-7 tables complete (vs combination oracle); the candidate loop analysed as a transformer over "
     "symbolic loop-carried state: iterates the whole table, no exit before exhaustion, ranks exactly the selected candidate "
-    "with the five-card evaluation, keeps the smallest non-zero value (decision table over the order types of best/candidate), "
+    "with the five-card evaluation, keeps the smallest non-zero value (the two values shown to be used as ordered values only; decision table over every pair of cells cut by the constants they are compared with, three representatives per cell), "
     "starts from 0, returns the running best; slot selection by provenance; candidates ranked per C01's premises.",
     "loop-body transformer rule + table completeness + C01 premises", "5-C02")
 reg("C03", rank.check_C03, "other",
     "Static: joint-update rule on the loop transformer (the remembered hand changes exactly when the best value does, to "
-    "the very candidate that was ranked), the result is the remembered hand under a descending sort (folded over all 541 "
+    "the very candidate that was ranked — on every pair of value cells, the cards being pure payload — and the stored value is the value of the stored hand), the result is the remembered hand under a descending sort (folded over all 541 "
     "order patterns), five-card ranking returns its receiver by node identity, and slot symmetry of the five-card value (F).",
     "loop-body transformer rule (joint update) + provenance + fold over order patterns", "5-C03")
 reg("C04", rank.check_C04, "other",
-    "Static: card filter as a cell table over all 2^32 words; is_corrupt is an OR over exactly the slots of `filter(slot) "
+    "Static: card filter as a cell table over all 2^32 words; is_corrupt decided on every combination of per-slot states (blank / non-card / card in each cell cut by the constants it compares with), i.e. an OR over exactly the slots of `filter(slot) "
     "== BLANK`; is_valid truth table; are_unique of all six sizes shown comparison-only and folded over every equality / "
-    "order pattern; validity gate of the three validated rankings and the free function by decision table; panic sites of "
+    "order pattern; validity gate of the three validated rankings and the free function exact by substitution (is_valid true: the node of the unvalidated value; false: the constant 0), the ranking only run behind it; panic sites of the validated entry points' own bodies and of "
     "the validity path; C01's premises for the valid edge.",
     "cell table + provenance of disjunction + fold over equality/order patterns + dominance of the validity gate", "5-C04")
 reg("C05", rank.check_C05, "other",
